@@ -331,6 +331,8 @@ class _Parser(object):
         if operator == '$or':
             return any(self._parse_to_bool(value) for value in values)
         if operator == '$not':
+            if isinstance(values, (list, tuple)) and len(values) == 1:
+                values = values[0]
             return not self._parse_to_bool(values)
         # This should never happen: it is only a safe fallback if something went wrong.
         raise NotImplementedError(  # pragma: no cover
